@@ -227,7 +227,10 @@ def run_history(ld, ad, val, deserialized, hist):
     except Exception:  # noqa: BLE001 - an instance that cannot be built / serialized is C01's concern, not C19's
         return "skip"
     for i, op in enumerate(hist):
-        what = apply(inst, tuple(op))
+        try:
+            what = apply(inst, tuple(op))
+        except _Skip:
+            return "skip"
         if what:
             return f"step {i} {tuple(op)!r}: {what}"
     return None
